@@ -84,5 +84,14 @@ CHECKS = {
                 "The partitioned linear solve is checked for 26 (quick) / all 255 (thorough) partitions of 8 symbolic unknowns: the solver receives K11 and -r1 - K10 (ext0 - u0), increments are placed correctly.",
         "note": "convergence of Newton on real nonlinear problems and SuperLU accuracy are outside the claim; maxiter <= 3.",
     },
+    "C08": {
+        "category": "model_checking",
+        "text": "Field values, increments and prescribed values are distinct symbolic variables, so the variable found at a global position identifies the (field, point, component) it belongs to: the values "
+                "vector, container +/-/+= updates, offsets and the prescribed-value vector (scalar, per-component and per-point array values, overlapping boundaries, dual field of different size, point without "
+                "cells) are proved as identities; partition covers/disjoint/sorted and equals the union of boundary unknowns plus cell-less points. Coordinate predicates are executed on symbolic coordinates "
+                "(np.isclose forks; up to 256 mask patterns per case), each selected/unselected point is proved to satisfy/violate the membership predicate under the path condition. Load cases symmetry / uniaxial / "
+                "biaxial / shear with all axis/sym/clamped arguments on grids with symbolic side lengths constrain exactly the documented planes and components with the documented values.",
+        "note": "bounded meshes (6-9 points); index sets are concrete per path; the solver's share is path feasibility, membership predicates and value identities.",
+    },
 }
 NOT_APPLICABLE = {}
